@@ -33,6 +33,8 @@ def make_cases_for(tier, seed):
             yield ("B", iv % 5, shape), shape
         for i in range(N_FALLBACK_PARAM_SETS):
             yield ("F", i), i
+        for i in range(len(special_value_sets())):
+            yield ("V", i), i
     return make_cases
 
 
@@ -46,7 +48,8 @@ def rule_text(tier):
             + ("3" if quick else "4") + " ops in <= 2 routines over {op, branch, jump, return, end, call, switch, case} (every jump "
             "target, every split, unreachable ops, cross-routine jumps, routines starting with a Jump), single routines with "
             + ("4" if quick else "4-5") + " ops over {op, branch, jump, end}, sets with context ops / hold, and (F) 38 sets that take the "
-            "SsbScript fallback and carry one parameter value of every kind (negative position-mark coordinates, strings with quotes / new lines ..)")
+            "SsbScript fallback and carry one parameter value of every kind (negative position-mark coordinates, strings with quotes / new lines ..) and (V) 35 sets with boolean-like tests "
+            "(debug / edit / variation / performance) on other numbers than 0 and 1 and bit operations on the performance progress list")
 
 
 def materialise(cid, case):
@@ -73,6 +76,8 @@ def materialise(cid, case):
         return comp.routine_ops, comp.routine_infos, comp.named_coroutines, text, case
     if cid[0] == "F":
         return fallback_param_set(case) + (None, None)
+    if cid[0] == "V":
+        return special_value_set(case) + (None, None)
     rops, infos, coros = GS.materialize(case, SEED, info_variant=cid[1])
     return rops, infos, coros, None, None
 
@@ -91,6 +96,35 @@ def param_values():
 
 
 N_FALLBACK_PARAM_SETS = 19 * 2
+
+
+def special_value_sets():
+    """(V) ops whose ExplorerScript form expresses only some parameter values (boolean-like tests with other numbers, bit ops
+    on the performance progress list, which has forms of its own)."""
+    from explorerscript.ssb_converting.ssb_data_types import SsbOperation, SsbOpCode, SsbOpParamConstant as C
+
+    def O(off, name, params):
+        return SsbOperation(off, SsbOpCode(-1, name), params)
+    perf = C(impl.PERF)
+    out = []
+    for name in ("BranchDebug", "BranchEdit", "BranchVariation"):
+        for v in (0, 1, 2, -1, 255):
+            out.append([O(1, "pre", []), O(2, name, [v, 6]), O(5, "a", []), O(6, "End", [])])
+    for v in (0, 1, 2, -1):
+        out.append([O(1, "BranchPerformance", [3, v, 6]), O(5, "a", []), O(6, "End", [])])
+        out.append([O(1, "flag_SetPerformance", [3, v]), O(4, "End", [])])
+        out.append([O(1, "flag_CalcBit", [perf, 3, v]), O(5, "Hold", [])])
+        out.append([O(1, "flag_CalcBit", [C("$OTHER"), 3, v]), O(5, "Hold", [])])
+    out.append([O(1, "BranchBit", [perf, 3, 6]), O(5, "a", []), O(6, "End", [])])
+    out.append([O(1, "BranchBit", [C("$OTHER"), 3, 6]), O(5, "a", []), O(6, "End", [])])
+    out.append([O(1, "flag_Set", [perf, 1]), O(4, "flag_CalcValue", [perf, 2, 1]), O(8, "flag_Clear", [perf]), O(10, "Return", [])])
+    out.append([O(1, "Branch", [perf, 1, 6]), O(5, "a", []), O(6, "BranchValue", [perf, 3, 1, 12]), O(11, "b", []), O(12, "End", [])])
+    return out
+
+
+def special_value_set(i):
+    from explorerscript.ssb_converting.ssb_data_types import SsbRoutineInfo, SsbRoutineType
+    return [special_value_sets()[i]], [SsbRoutineInfo(SsbRoutineType.GENERIC, 0)], [None]
 
 
 def fallback_param_set(i):
